@@ -31,7 +31,7 @@ ALL_SIZED = BASE + CONV + BORROW + UNIQ + COW + UNWRAP
 def walks(prop, tier, seed, ops=None, hows=("new", "newB", "unique")):
     """random walks (tlc -simulate) through the sized-family specification with more slots, blocks and
     frame depth than the exhaustive configurations reach"""
-    n, d = (400, 40) if tier == "quick" else (5000, 80)
+    n, d = (400, 40) if tier == "quick" else (2000, 80)
     return sized(prop, tier, "sized_walks_" + tier[0], ops or ALL_SIZED, 6, 4, 2, hows=hows, simulate=(n, d, seed))
 
 
@@ -168,7 +168,7 @@ def c15(tier, seed):
                 # every payload shape through the uninit constructors: the block asked for is the block given back
                 lay("C15", tier, "layout_matrix_q"),
                 # a block built through the uninit constructors with a recorded length of its own, then made thin
-                stage(CT.ctor_stage, "C15", tier, "ctor_uninit_q", ["fhi", "thin", "collect"], True, only_cats=["contents", "baddrop", "drops", "overrun", "crash"]),
+                stage(CT.ctor_stage, "C15", tier, "ctor_uninit_q", ["fhi", "thin", "collect", "zst"], True, only_cats=["contents", "baddrop", "drops", "overrun", "crash", "panicked", "leak"], only_k={"zst": (15, 24)}),
                 thin("C15", tier, "thin_reclen_q", ["NewFat", "NewThin", "Clone", "Drop", "IntoThin", "FromThin", "ProtFromThin", "ProtIntoThin"], 3, 2, 1, 2)] + swaps("C15", tier, seed, hows=("uninit",))
     return [uninit("C15", tier, "uninit_t", 3, 2, 3), uninit("C15", tier, "uninit_t4", 4, 2, 2),
             uninit("C15", tier, "uninit_walks_t", 5, 4, 5, simulate=(5000, 60, seed)),
@@ -177,7 +177,7 @@ def c15(tier, seed):
             mm("C15", tier, "mm_deprecated_write_t", [("c15_2x4", ["clone", "read", "drop", "get_mut"], 2, 4, 2, False), ("c15_3x2", ["clone", "read", "drop", "get_mut"], 3, 2, 1, False)]),
             stage(CT.ctor_stage, "C15", tier, "release_t", ["release"], True, only_cats=["frees", "drops", "baddrop", "leak", "crash", "panicked"]),
             lay("C15", tier, "layout_matrix_t"),
-            stage(CT.ctor_stage, "C15", tier, "ctor_uninit_t", ["fhi", "thin", "collect"], True, only_cats=["contents", "baddrop", "drops", "overrun", "crash"]),
+            stage(CT.ctor_stage, "C15", tier, "ctor_uninit_t", ["fhi", "thin", "collect", "zst"], True, only_cats=["contents", "baddrop", "drops", "overrun", "crash", "panicked", "leak"], only_k={"zst": (15, 24)}),
             thin("C15", tier, "thin_reclen_t", ["NewFat", "NewThin", "Clone", "Drop", "IntoThin", "FromThin", "ProtFromThin", "ProtIntoThin"], 4, 2, 1, 3)] + swaps("C15", tier, seed, hows=("uninit",))
 
 
